@@ -133,7 +133,8 @@ def extract(units, repo=None, extra_units=None, tier="quick"):
     for u, v in (extra_units or {}).items():
         todo[u] = v
     key = _tree_hash(repo, [os.path.join(VERIF, "tu"), os.path.join(VERIF, "selftest")])
-    cache = os.path.join(VERIF, ".cache", key + "-" + hashlib.sha256(repo.encode()).hexdigest()[:8])
+    cache_root = os.environ.get("PSV_CACHE_DIR") or os.path.join(VERIF, ".cache")
+    cache = os.path.join(cache_root, key + "-" + hashlib.sha256(repo.encode()).hexdigest()[:8])
     os.makedirs(cache, exist_ok=True)
     try:
         os.utime(cache, None)
@@ -141,7 +142,7 @@ def extract(units, repo=None, extra_units=None, tier="quick"):
         pass
     # prune old caches: keep the 6 most recently used, and never remove one used in the last half hour (a concurrent run may be reading it)
     try:
-        root = os.path.join(VERIF, ".cache")
+        root = cache_root
         now = time.time()
         olds = sorted((os.path.getmtime(os.path.join(root, d)), d) for d in os.listdir(root))
         for mt_, d in olds[:-6]:
